@@ -69,13 +69,35 @@ LIB_SCALAR = {'math.acos', 'math.asin', 'math.atan', 'math.atan2', 'math.ceil', 
               'pathlib.Path', 'shutil.copyfile', 'shutil.copy', 'shutil.rmtree', 'sys.exit', 'time.sleep', 'time.time',
               'logging.basicConfig', 'logging.debug', 'logging.info', 'logging.warning', 'logging.error', 'logging.getLogger',
               'torch.device', 'torch.manual_seed', 'torch.random.seed', 'torch.cuda.empty_cache', 'torch.cuda.is_available',
-              'torch.is_tensor', 'torch.is_complex', 'torch.no_grad', 'torch.enable_grad', 'torch.set_grad_enabled',
+              'torch.is_tensor', 'torch.is_complex', 'torch.equal', 'torch.allclose', 'torch.is_floating_point', 'torch.get_default_dtype', 'numpy.array_equal', 'numpy.iscomplexobj', 'numpy.isrealobj', 'numpy.issubdtype', 'numpy.result_type', 'numpy.finfo', 'numpy.iinfo', 'torch.finfo', 'torch.iinfo', 'torch.no_grad', 'torch.enable_grad', 'torch.set_grad_enabled',
               'torch.save', 'torch.numel', 'numpy.allclose', 'numpy.isscalar', 'numpy.ndim', 'numpy.shape', 'numpy.size',
               'numpy.save', 'numpy.savetxt', 'numpy.random.seed', 'json.dump', 'json.dumps', 'cv2.imwrite',
               'subprocess.Popen', 'subprocess.run', 'subprocess.call', 'traceback.print_exc', 'struct.pack', 'struct.unpack',
               'socket.socket', 'glob.glob', 'sys.path.append', 'warnings.warn'}
 # new arrays / tensors / objects that share nothing with the arguments (checked against the numpy / torch documentation)
 LIB_FRESH = {
+    'numpy.rint', 'numpy.trunc', 'numpy.fix', 'numpy.fabs', 'numpy.floor_divide', 'numpy.true_divide', 'numpy.reciprocal', 'numpy.negative',
+    'numpy.exp2', 'numpy.expm1', 'numpy.log1p', 'numpy.cbrt', 'numpy.sinh', 'numpy.cosh', 'numpy.tanh', 'numpy.arctanh', 'numpy.arccosh',
+    'numpy.isclose', 'numpy.equal', 'numpy.not_equal', 'numpy.less', 'numpy.greater', 'numpy.less_equal', 'numpy.greater_equal',
+    'numpy.cumprod', 'numpy.nanmax', 'numpy.nanmin', 'numpy.nanmean', 'numpy.nansum', 'numpy.nanstd', 'numpy.percentile', 'numpy.quantile',
+    'numpy.average', 'numpy.ptp', 'numpy.searchsorted', 'numpy.digitize', 'numpy.bincount', 'numpy.argwhere', 'numpy.flatnonzero',
+    'numpy.select', 'numpy.heaviside', 'numpy.unwrap', 'numpy.vdot', 'numpy.inner', 'numpy.cov', 'numpy.corrcoef', 'numpy.logical_xor',
+    'numpy.float_power', 'numpy.remainder', 'numpy.nanargmax', 'numpy.nanargmin', 'numpy.mgrid', 'numpy.ogrid', 'numpy.fft.rfft', 'numpy.fft.irfft',
+    'numpy.fft.fftn', 'numpy.fft.ifftn', 'numpy.linalg.eig', 'numpy.linalg.eigh', 'numpy.linalg.svd', 'numpy.linalg.qr', 'numpy.cumulative_sum',
+    'torch.trunc', 'torch.frac', 'torch.reciprocal', 'torch.neg', 'torch.negative', 'torch.absolute', 'torch.sinh', 'torch.cosh', 'torch.asinh',
+    'torch.acosh', 'torch.atanh', 'torch.expm1', 'torch.log1p', 'torch.logsumexp', 'torch.cumprod', 'torch.nanmean', 'torch.nansum',
+    'torch.quantile', 'torch.nanquantile', 'torch.aminmax', 'torch.ne', 'torch.lt', 'torch.gt', 'torch.le', 'torch.ge', 'torch.isclose',
+    'torch.logical_xor', 'torch.count_nonzero', 'torch.nonzero', 'torch.argwhere', 'torch.searchsorted', 'torch.bucketize', 'torch.bincount',
+    'torch.lerp', 'torch.addcmul', 'torch.addcdiv', 'torch.baddbmm', 'torch.addmm', 'torch.mv', 'torch.inner', 'torch.cdist', 'torch.dist',
+    'torch.det', 'torch.inverse', 'torch.pinverse', 'torch.svd', 'torch.clamp_min', 'torch.clamp_max', 'torch.clip', 'torch.heaviside',
+    'torch.fft.rfft', 'torch.fft.irfft', 'torch.fft.rfft2', 'torch.fft.irfft2', 'torch.cartesian_prod', 'torch.diag', 'torch.diag_embed',
+    'torch.tril', 'torch.triu', 'torch.flipud', 'torch.fliplr', 'torch.rot90', 'torch.vstack', 'torch.hstack', 'torch.dstack',
+    'torch.column_stack', 'torch.mode', 'torch.kthvalue', 'torch.cummax', 'torch.cummin', 'torch.floor_divide', 'torch.true_divide',
+    'torch.linalg.det', 'torch.linalg.svd', 'torch.linalg.eigh', 'torch.linalg.solve', 'torch.linalg.lstsq', 'torch.linalg.vector_norm',
+    'torch.linalg.matrix_norm', 'torch.bitwise_and', 'torch.bitwise_or', 'torch.bitwise_not', 'torch.bitwise_xor', 'torch.take_along_dim',
+    'torch.nn.functional.relu6', 'torch.nn.functional.elu', 'torch.nn.functional.softplus', 'torch.nn.functional.tanh', 'torch.nn.functional.log_softmax',
+    'torch.nn.functional.cosine_similarity', 'torch.nn.functional.pixel_shuffle', 'torch.nn.functional.conv3d', 'torch.nn.functional.adaptive_avg_pool2d',
+    'torch.nn.functional.huber_loss', 'torch.nn.functional.smooth_l1_loss', 'torch.nn.functional.binary_cross_entropy', 'torch.nn.functional.cross_entropy',
     'torch.nn.functional.relu', 'torch.nn.functional.leaky_relu', 'torch.nn.functional.pad', 'torch.nn.functional.interpolate',
     'torch.nan_to_num', 'torch.clamp', 'numpy.float64', 'numpy.float32', 'numpy.int64', 'numpy.int32', 'numpy.nan_to_num', 'numpy.conj',
     'numpy.conjugate', 'numpy.complex64', 'numpy.complex128',
